@@ -56,7 +56,7 @@ def gen(rng, tier):
         yield Case("fromxkey", [c, hx(pv), hx(sv), tx(s_pub)], "fromx-pub" if not (depth == 0 and (fp != bytes(4) or idx)) else "neg-master-meta")
         # corruption stream (checksum recomputed unless stated)
         raw = sv + bytes([depth]) + fp + idx.to_bytes(4, "big") + cc + b"\x00" + kb
-        kind = rng.randrange(9)
+        kind = rng.randrange(11)
         if kind == 0:      # unknown version
             bad = bytes([raw[0] ^ 1]) + raw[1:]
         elif kind == 1:    # truncated / extended
@@ -71,6 +71,13 @@ def gen(rng, tier):
             bad = pv + raw[4:45] + rng.choice([b"\x05" + kb, b"\x02" + b"\xff" * 32, b"\x04" + kb])
         elif kind == 6:    # 110-byte private form (Kholaw length) on a 32-byte-key curve
             bad = raw + bytes(32)
+        elif kind == 9:    # public version over a 110-byte payload: uncompressed key field, or trailing bytes
+            unc = CLS[c].FromPrivateKey(kb).PublicKey().RawUncompressed().ToBytes()
+            bad = pv + raw[4:45] + (unc if rng.random() < 0.6 else pub + bytes(32))
+        elif kind == 10:   # every wrong length around the legal ones, either version
+            ln = rng.choice([76, 77, 79, 80, 109, 111, 142])
+            body = (rng.choice([pv, sv]) + raw[4:] + bytes(64))[:ln]
+            bad = body
         else:
             bad = None
         if bad is not None:
